@@ -142,6 +142,29 @@ def exec_for(it, st, fr):
         # element (stated assumption: loop bodies under such contracts are idempotent per element).
         import z3
         from .symcoll import SColl, SDict, STup, SSet
+        if hasattr(itv, "seq_len"):
+            # indexed sequence of symbolic length: ghost `__index__` = number of items done
+            from .values import SInt
+            N = itv.seq_len(it)
+            fr.locals["__index__"] = 0
+            st_ = {}
+
+            def havoc_idx():
+                i = z3.Int(it.ctx.fresh_name("idx"))
+                it.ctx.assume(z3.And(i >= 0, i <= N))
+                fr.locals["__index__"] = SInt(i)
+
+            def test_idx():
+                i = fr.locals["__index__"]
+                it_ = i.t if isinstance(i, SInt) else z3.IntVal(i)
+                st_["i"] = it_
+                return it.ctx.branch(it_ < N)
+
+            def bind_idx():
+                it.assign(st.target, itv.seq_item(it, st_["i"]), fr)
+                from .values import lift
+                fr.locals["__index__"] = lift(st_["i"] + 1)
+            return _cut_loop(it, st, fr, spec, test_idx, bind_idx, havoc_idx)
         if isinstance(itv, STup):
             coll, conv = itv.gen.coll, itv.gen.fn
         elif isinstance(itv, SDict):
